@@ -215,10 +215,14 @@ const TheoryTerm& TheoryData::addTerm(Id_t termId, const char* name) {
 	return addTerm(termId, Potassco::toSpan(name, name ? std::strlen(name) : 0));
 }
 const TheoryTerm& TheoryData::addTerm(Id_t termId, Id_t funcId, const IdSpan& args) {
-	return setTerm(termId) = TheoryTerm(FuncData::newFunc(static_cast<int32_t>(funcId), args));
+	FuncData* f = FuncData::newFunc(static_cast<int32_t>(funcId), args);
+	try { return setTerm(termId) = TheoryTerm(f); }
+	catch (...) { FuncData::destroy(f); throw; } // setTerm() refuses redefinitions: do not leak f
 }
 const TheoryTerm& TheoryData::addTerm(Id_t termId, Tuple_t type, const IdSpan& args) {
-	return setTerm(termId) = TheoryTerm(FuncData::newFunc(static_cast<int32_t>(type), args));
+	FuncData* f = FuncData::newFunc(static_cast<int32_t>(type), args);
+	try { return setTerm(termId) = TheoryTerm(f); }
+	catch (...) { FuncData::destroy(f); throw; } // setTerm() refuses redefinitions: do not leak f
 }
 void TheoryData::removeTerm(Id_t termId) {
 	if (hasTerm(termId)) {
